@@ -347,15 +347,18 @@ func runC05Partial(c C05Partial, ev *Evid) (fs []Finding) {
 
 // C05CLI: a copy / sum-copy onto an existing destination that is made to fail.
 type C05CLI struct {
-	Now     int64      `json:"now"`
-	Cmd     string     `json:"cmd"` // copy | sum-copy
-	Src     []TreeFile `json:"src"`
-	Dest    FileSpec   `json:"dest"`  // the existing destination (its layout may differ from the source's)
-	Fault   string     `json:"fault"` // layout-mismatch | corrupt-src | devfull | second-file-mismatch
-	Corrupt []byte     `json:"corrupt,omitempty"`
-	From    int64      `json:"from"`
-	Until   int64      `json:"until"`
-	CopyNaN bool       `json:"copy_nan"`
+	Now   int64      `json:"now"`
+	Cmd   string     `json:"cmd"` // copy | sum-copy
+	Src   []TreeFile `json:"src"`
+	Dest  FileSpec   `json:"dest"`  // the existing destination (its layout may differ from the source's)
+	Fault string     `json:"fault"` // layout-mismatch | corrupt-src | devfull | second-file-mismatch | dest-damaged-coarser
+	// ArchiveID: -1 all; dest-damaged-coarser selects an archive finer than the damaged one
+	ArchiveID  int    `json:"archive_id"`
+	DamageArch int    `json:"damage_arch,omitempty"`
+	Corrupt    []byte `json:"corrupt,omitempty"`
+	From       int64  `json:"from"`
+	Until      int64  `json:"until"`
+	CopyNaN    bool   `json:"copy_nan"`
 }
 
 func runC05(c C05Case, ev *Evid) []Finding {
@@ -394,6 +397,21 @@ func runC05CLI(c C05CLI, ev *Evid) (fs []Finding) {
 		if err := buildFile(filepath.Join(base, destRel), c.Dest, c.Now); err != nil {
 			return base, err
 		}
+		if c.Fault == "dest-damaged-coarser" {
+			// the base interval of a coarser archive of the destination is knocked off its step grid: an update of
+			// a finer archive stores its slots and then fails while propagating
+			p := filepath.Join(base, destRel)
+			b, _ := os.ReadFile(p)
+			if f, err := ParseWsp(b); err == nil && c.DamageArch < len(f.H.Archives) {
+				ar := f.H.Archives[c.DamageArch]
+				iv := f.Slots[c.DamageArch][0].Interval
+				if iv == 0 {
+					iv = uint32(alignDown(c.Now, int64(ar.Step)))
+				}
+				binary.BigEndian.PutUint32(b[ar.Offset:], iv+1)
+				os.WriteFile(p, b, 0644)
+			}
+		}
 		if c.Fault == "second-file-mismatch" && len(c.Src) > 1 {
 			// the first matched file has a regular destination, the second one the mismatching layout
 			second := c.Src[1]
@@ -417,10 +435,10 @@ func runC05CLI(c C05CLI, ev *Evid) (fs []Finding) {
 				rel = first.Dir + "/*.wsp"
 			}
 			cc = &cmd.CopyCommand{SrcBase: srcBase, SrcRelPath: rel, DestBase: destBase, AggregationMethod: wt.AggregationMethod(l.Method), XFilesFactor: l.XFF, ArchiveInfoList: wtArchives(l),
-				From: wt.Timestamp(c.From), Until: wt.Timestamp(c.Until), ArchiveID: -1, CopyNaN: c.CopyNaN, TextOut: textOut}
+				From: wt.Timestamp(c.From), Until: wt.Timestamp(c.Until), ArchiveID: c.ArchiveID, CopyNaN: c.CopyNaN, TextOut: textOut}
 		} else {
 			cc = &cmd.SumCopyCommand{SrcBase: srcBase, DestBase: destBase, ItemPattern: first.Dir, SrcPattern: "*.wsp", DestRelPath: "sum.wsp", AggregationMethod: wt.AggregationMethod(l.Method), XFilesFactor: l.XFF, ArchiveInfoList: wtArchives(l),
-				From: wt.Timestamp(c.From), Until: wt.Timestamp(c.Until), ArchiveID: -1, TextOut: textOut}
+				From: wt.Timestamp(c.From), Until: wt.Timestamp(c.Until), ArchiveID: c.ArchiveID, TextOut: textOut}
 		}
 		return runCommand(c.Now, cc)
 	}
@@ -509,7 +527,16 @@ func genC05CLI(t *rapid.T) C05CLI {
 	for i := 0; i < n; i++ {
 		c.Src = append(c.Src, TreeFile{Dir: "s1", Name: fmt.Sprintf("f%d.wsp", i+1), Spec: FileSpec{L: l, Writes: genWrites(t, l, now, valDyadic, 10)}})
 	}
-	c.Fault = rapid.SampledFrom([]string{"layout-mismatch", "corrupt-src", "devfull", "devfull", "second-file-mismatch"}).Draw(t, "fault")
+	c.ArchiveID = -1
+	c.Fault = rapid.SampledFrom([]string{"layout-mismatch", "corrupt-src", "devfull", "devfull", "second-file-mismatch", "dest-damaged-coarser"}).Draw(t, "fault")
+	if c.Fault == "dest-damaged-coarser" {
+		if len(l.Archives) < 2 {
+			c.Fault = "layout-mismatch"
+		} else {
+			c.DamageArch = rapid.IntRange(1, len(l.Archives)-1).Draw(t, "damageArch")
+			c.ArchiveID = rapid.IntRange(0, c.DamageArch-1).Draw(t, "copyArchive")
+		}
+	}
 	if c.Fault == "second-file-mismatch" && (c.Cmd != "copy" || n < 2) {
 		c.Fault = "layout-mismatch"
 	}
